@@ -93,10 +93,15 @@ def seg_case(draw, tier="quick"):
     labels, nfix = merge_single_sample_segments(labels)
     second = None
     if draw(st.sampled_from([False, False, True])):
-        a2, o2, m2 = draw(gen.aperture(shape, wl, min_samples=4))
+        # the second plane's arrays may have another size (planes line up on their origin samples, index floor(n/2))
+        shape2 = shape
+        if draw(st.booleans()) and max(shape) <= 40:
+            shape2 = (max(3, shape[0] + draw(st.integers(-4, 8))), max(3, shape[1] + draw(st.integers(-4, 8))))
+        a2, o2, m2 = draw(gen.aperture(shape2, wl, min_samples=4))
         lab2 = None
-        if draw(st.booleans()):
-            lab2, _ = draw(gen.partition(m2.astype(bool), kmax=3))
+        if draw(st.booleans()) or shape2 != shape:
+            # (a second plane of another size is always segmented: segments x segments on two different frames)
+            lab2, _ = draw(gen.partition(m2.astype(bool), kmax=3, kmin=2 if shape2 != shape else 1))
             lab2, _n = merge_single_sample_segments(lab2)
         second = {"amp": a2, "opd": o2, "mask": m2, "labels": lab2}
     os_ = samp["oversample"]
@@ -193,7 +198,12 @@ def segmented(case, ctx):
             two_seg = True
         else:
             seg.append(sec["mask"])
-        model = model * pm.phasor(shape, sec["amp"], sec["opd"], sec["mask"], wl)
+        shape2 = tuple(np.asarray(sec["amp"]).shape)
+        if shape2 != shape:
+            ctx.tag("second_plane_other_size", "second_plane_other_centre" if (shape2[0] // 2, shape2[1] // 2) != (shape[0] // 2, shape[1] // 2) else None)
+        model = pm.recentre(model, shape2) * pm.phasor(shape2, sec["amp"], sec["opd"], sec["mask"], wl)
+        if not np.any(model):
+            raise Skip("planes_do_not_overlap")
     ctx.tag(f"k:{k}", "kind:" + case["kind"], "bbox_overlap" if k >= 2 and _bbox_overlap(labels) else None,
             "two_segmented_planes" if two_seg else None, "second_plane" if sec is not None else None,
             "prop<shape" if case["prop_shape"] is not None else None, "omask" if case["omask"] is not None else None,
